@@ -21,7 +21,7 @@ fn gen_run<B: Be>(g: &mut Gen, run: i64, nops: usize, out: &mut Out) {
     // every fifth run rescales all its numbers by a power of two far below / above machine epsilon, every
     // fifth run uses the floats next to 0.1 ("neighbouring floats"): see ops::Codec
     let f32ty = B::TY == "f32";
-    let codec = match (run / 2) % 5 {
+    let codec = match if g.ladder { 0 } else { (run / 2) % 5 } {
         3 => Codec::Scale(if (run / 10) % 2 == 0 { if f32ty { -30 } else { -60 } } else if f32ty { 20 } else { 40 }),
         4 => Codec::Ulp,
         _ => Codec::Plain,
@@ -164,6 +164,17 @@ fn main() {
                     gen_run::<Dense32>(&mut g, run, nops, &mut out);
                 }
             }
+            // the size ladder: a handful of runs on operands with 63 .. 3000 entries
+            g.ladder = true;
+            for i in 0..(if th { 80 } else { 20 }) {
+                run += 1;
+                if i % 2 == 0 {
+                    gen_run::<Dense64>(&mut g, run, 8, &mut out);
+                } else {
+                    gen_run::<Dense32>(&mut g, run, 8, &mut out);
+                }
+            }
+            g.ladder = false;
             let n = out.finish();
             println!("events={} runs={}", n, run);
         }
